@@ -90,6 +90,11 @@ def one_case(rec, tap, rng, cid):
             p0[n].vary = not p0[n].vary
     if not any(p0[n].vary for n in names):
         p0["contact_point"].vary = True
+    if rng.random() < .3 and p0["contact_point"].vary:
+        # finite bounds (measured units) around the initial contact point
+        c0 = p0["contact_point"].value
+        p0["contact_point"].set(min=c0 - float(rng.uniform(.05e-6, 1e-6)),
+                                max=c0 + float(rng.uniform(.05e-6, 1e-6)))
     seg = int(rng.integers(2))
     k = float(rng.choice([1, 1, .5, 2, .6135]))
     wcp = [0, False, 1e-7, 5e-7, 2e-6][int(rng.integers(5))]
